@@ -178,7 +178,7 @@ def make_expand(init):
 def run(run, tier, seed):
     sut.bind()
     sut.ensure_protocols()
-    d_un, d_me = (3, 5) if tier == 'quick' else (5, 8)
+    d_un, d_me = (3, 5) if tier == 'quick' else (4, 8)
     for init in INITIAL:
         if tier == 'quick' and init in ('wl_pointer', '!'):
             continue      # quick: the unmerged search from two of the four initial filters; the merged one from all
